@@ -133,7 +133,14 @@ int main(int argc, char** argv) {
             node& n = cell_tester::nodes(*c1)[0];
             cell_tester::pos(n) = p;
             const double cut = std::sqrt(C["cut2"].d()) * u;
-            open_model mdl(params(u, cut, cut));
+            // two DIFFERENT cut-offs, so that exchanging them anywhere between the parameter file and the range tests shows: the spring
+            // model has a range per interaction (repulsion: cut, adhesion: twice that); the coupling models use the larger of the two
+            // for both (adhesion: cut, repulsion: half of it -- the range of the specification is still cut)
+#if CONTACT_MODEL_INDEX == 0
+            open_model mdl(params(u, 2. * cut, cut));
+#else
+            open_model mdl(params(u, cut, 0.5 * cut));
+#endif
             std::vector<cell_ptr> L = {c1, c2};
             zero(L);
             face* f = &cell_tester::faces(*c2)[0];
